@@ -1,12 +1,203 @@
-(** C30 — bit-level oblivious building blocks. Only statements; proofs are in theories/. *)
+(** C30 — bit-level oblivious building blocks are correct for all inputs.
+    Only statements; the models and proofs are in theories/Bits.v and theories/FindUnit.v. *)
 From Coq Require Import ZArith List.
 Require Import MPyC.Base MPyC.Bits MPyC.FindUnit.
 Import ListNotations.
 Local Open Scope Z_scope.
 
+(** add_bits: binary addition modulo 2^n of two n-bit vectors, all n; the outputs are bits. *)
 Theorem C30_add_bits_correct :
   forall x y : list Z, length y = length x -> allbits x -> allbits y ->
     value (add_bits x y) = (value x + value y) mod 2 ^ Z.of_nat (length x)
     /\ allbits (add_bits x y) /\ length (add_bits x y) = length x.
 Proof. exact add_bits_correct. Qed.
-Print Assumptions C30_add_bits_correct.
+Print Assumptions C30_add_bits_correct .
+
+Theorem C30_add_bits_is_expansion :
+  forall x y : list Z, length y = length x -> allbits x -> allbits y ->
+    add_bits x y = bits_of (value x + value y) (length x).
+Proof. exact add_bits_is_bits_of. Qed.
+Print Assumptions C30_add_bits_is_expansion .
+
+(** from_bits is the value; from_bits of the l-bit expansion of a is a mod 2^l. *)
+Theorem C30_from_bits_value : forall x : list Z, from_bits x = value x.
+Proof. exact from_bits_value. Qed.
+Print Assumptions C30_from_bits_value .
+
+Theorem C30_from_to_bits : forall (a : Z) (l : nat), from_bits (bits_of a l) = a mod 2 ^ Z.of_nat l.
+Proof. exact from_to_bits. Qed.
+Print Assumptions C30_from_to_bits .
+
+(** to_bits on secure integers and fixed-point numbers (incl. the integral shortcut): for EVERY
+    tape (rbits, rdivl) that does not wrap around the field, the two's complement expansion. *)
+Theorem C30_to_bits_num_correct :
+  forall (p : Z) (L f : nat) (integral : bool) (A : Z) (l : nat) (rbits : list Z) (rdivl : Z),
+    let rs := rshift_f f integral in
+    let l' := if rs then (l - f)%nat else l in
+    let A' := if rs then A / 2 ^ Z.of_nat f else A in
+    (rs = true -> A mod 2 ^ Z.of_nat f = 0) ->
+    ((rs && (l <=? f)%nat)%bool = true \/
+     ((l' <= L)%nat /\ length rbits = l' /\ allbits rbits /\
+      0 <= A' + (2 ^ Z.of_nat L + rdivl * 2 ^ Z.of_nat l' - value rbits) < p)) ->
+    to_bits_num p L f integral A l rbits rdivl = bits_of A l.
+Proof. exact to_bits_num_correct. Qed.
+Print Assumptions C30_to_bits_num_correct .
+
+Theorem C30_to_bits_int_correct :
+  forall (p : Z) (L : nat) (a : Z) (l : nat) (rbits : list Z) (rdivl : Z),
+    (l <= L)%nat -> length rbits = l -> allbits rbits ->
+    0 <= a + (2 ^ Z.of_nat L + rdivl * 2 ^ Z.of_nat l - value rbits) < p ->
+    to_bits_num p L 0 false a l rbits rdivl = bits_of a l.
+Proof. exact to_bits_int_correct. Qed.
+Print Assumptions C30_to_bits_int_correct .
+
+(** the no-wrap condition holds on the ranges used by the code unless r_divl = 0 and l = L *)
+Theorem C30_to_bits_nowrap_from_ranges :
+  forall (p : Z) (L k : nat) (a : Z) (l : nat) (rbits : list Z) (rdivl : Z),
+    (l <= L)%nat -> (1 <= k)%nat -> length rbits = l -> allbits rbits ->
+    - 2 ^ Z.of_nat L <= 2 * a < 2 ^ Z.of_nat L ->
+    0 <= rdivl < 2 ^ Z.of_nat (L + k - l) -> (1 <= rdivl \/ (l < L)%nat) ->
+    2 ^ Z.of_nat (L + k + 1) <= p ->
+    0 <= a + (2 ^ Z.of_nat L + rdivl * 2 ^ Z.of_nat l - value rbits) < p.
+Proof. exact nowrap_from_ranges. Qed.
+Print Assumptions C30_to_bits_nowrap_from_ranges .
+
+(** ... and in that remaining event (probability <= 2^-k) the bits are wrong: statistical error *)
+Theorem C30_to_bits_wrap_witness :
+  to_bits_num 1099511627563 8 0 false (-128) 8 [1;1;1;1;1;1;1;1] 0 <> bits_of (-128) 8.
+Proof. exact to_bits_wrap_witness. Qed.
+Print Assumptions C30_to_bits_wrap_witness .
+
+(** FINDING: l > bit_length passes the assert (l <= bit_length + frac_length) but is wrong *)
+Theorem C30_to_bits_l_gt_bit_length_refuted :
+  exists p L f A l rbits rdivl,
+    (l <= L + f)%nat /\ length rbits = l /\ allbits rbits /\
+    - 2 ^ Z.of_nat L <= 2 * A < 2 ^ Z.of_nat L /\
+    0 <= A + (2 ^ Z.of_nat L + rdivl * 2 ^ Z.of_nat l - value rbits) < p /\
+    to_bits_num p L f false A l rbits rdivl <> bits_of A l.
+Proof. exact to_bits_l_gt_bit_length_refuted. Qed.
+Print Assumptions C30_to_bits_l_gt_bit_length_refuted .
+
+Theorem C30_to_bits_gf2_correct :
+  forall (a : Z) (l : nat) (rbits : list Z),
+    length rbits = l -> allbits rbits -> to_bits_gf2 a l rbits = bits_of a l.
+Proof. exact to_bits_gf2_correct. Qed.
+Print Assumptions C30_to_bits_gf2_correct .
+
+Theorem C30_to_bits_gfp_correct :
+  forall (p' : Z) (bl : nat) (a : Z) (l : nat) (rbits : list Z) (rdivl : Z),
+    (l <= S bl)%nat -> length rbits = l -> allbits rbits ->
+    0 <= a + (2 ^ Z.of_nat (S bl) + rdivl * 2 ^ Z.of_nat l - value rbits) < p' ->
+    to_bits_gfp p' bl a l rbits rdivl = bits_of a l.
+Proof. exact to_bits_gfp_correct. Qed.
+Print Assumptions C30_to_bits_gfp_correct .
+
+(** trailing_zeros: bit i is right whenever all lower bits of a are 0 (up to and incl. the lowest 1) *)
+Theorem C30_trailing_zeros_correct :
+  forall (p : Z) (L : nat) (A : Z) (l : nat) (rbits : list Z) (rdivl : Z),
+    (l <= L)%nat -> length rbits = l -> allbits rbits ->
+    0 <= A + (2 ^ Z.of_nat L + rdivl * 2 ^ Z.of_nat l + value rbits) < p ->
+    forall i, (i < l)%nat -> A mod 2 ^ Z.of_nat i = 0 ->
+      nth i (trailing_zeros p L A l rbits rdivl) 0 = (A / 2 ^ Z.of_nat i) mod 2.
+Proof. exact trailing_zeros_correct. Qed.
+Print Assumptions C30_trailing_zeros_correct .
+
+Theorem C30_trailing_zeros_bits :
+  forall (p : Z) (L : nat) (A : Z) (l : nat) (rbits : list Z) (rdivl : Z),
+    allbits rbits -> allbits (trailing_zeros p L A l rbits rdivl).
+Proof. exact trailing_zeros_allbits. Qed.
+Print Assumptions C30_trailing_zeros_bits .
+
+(** unit_vector: the a-th unit vector of length n for all n and 0 <= a < n; a = n wraps to e_0 *)
+Theorem C30_unit_vector_correct :
+  forall a n : Z, 0 <= a < n ->
+    length (unit_vector a n) = Z.to_nat n /\
+    forall i, (i < Z.to_nat n)%nat -> nth i (unit_vector a n) 0 = if Z.of_nat i =? a then 1 else 0.
+Proof. exact unit_vector_correct. Qed.
+Print Assumptions C30_unit_vector_correct .
+
+Theorem C30_unit_vector_wrap :
+  forall n : Z, 1 <= n -> unit_vector n n = 1 :: repeat 0 (Z.to_nat (n - 1)).
+Proof. exact unit_vector_wrap. Qed.
+Print Assumptions C30_unit_vector_wrap .
+
+(** find: f(index of the first occurrence of a), f(e) if absent, or the raw pair (nf, f(ix)) *)
+Theorem C30_find_correct :
+  forall (x : list Z) (a : aarg) (bits : bool) (e : earg)
+         (f : option (Z -> list Z)) (cs_f : option (Z -> Z -> list Z)) (F : Z -> list Z),
+    find_wf x a bits ->
+    find_F f cs_f = Some F ->
+    (forall i j, length (F i) = length (F j)) ->
+    (forall cs, cs_f = Some cs -> forall i, 0 <= i -> cs 1 i = cs 0 (i + 1)) ->
+    find x a bits e f cs_f = Some (find_result x (aval a) e F).
+Proof. exact find_correct. Qed.
+Print Assumptions C30_find_correct .
+
+(** FINDING: with both f and cs_f the call always raises *)
+Theorem C30_find_both_refuted :
+  forall x a bits e f cs, find x a bits e (Some f) (Some cs) = None.
+Proof. exact find_both_refuted. Qed.
+Print Assumptions C30_find_both_refuted .
+
+(** gcp2 = 2^t, t the position of the lowest 1 of a or b; 2^l if there is none below l *)
+Theorem C30_gcp2_correct :
+  forall (p : Z) (L : nat) (A B : Z) (l : nat) (ra : list Z) (da : Z) (rb : list Z) (db : Z) (t : nat),
+    (l <= L)%nat -> tape_ok p L A l ra da -> tape_ok p L B l rb db ->
+    (t < l)%nat -> A mod 2 ^ Z.of_nat t = 0 -> B mod 2 ^ Z.of_nat t = 0 ->
+    ((A / 2 ^ Z.of_nat t) mod 2 = 1 \/ (B / 2 ^ Z.of_nat t) mod 2 = 1) ->
+    gcp2 p L A B l ra da rb db = Some (2 ^ Z.of_nat t).
+Proof. exact gcp2_correct. Qed.
+Print Assumptions C30_gcp2_correct .
+
+Theorem C30_gcp2_zero :
+  forall (p : Z) (L : nat) (A B : Z) (l : nat) (ra : list Z) (da : Z) (rb : list Z) (db : Z),
+    (l <= L)%nat -> (1 <= l)%nat -> tape_ok p L A l ra da -> tape_ok p L B l rb db ->
+    A mod 2 ^ Z.of_nat l = 0 -> B mod 2 ^ Z.of_nat l = 0 ->
+    gcp2 p L A B l ra da rb db = Some (2 ^ Z.of_nat l).
+Proof. exact gcp2_zero. Qed.
+Print Assumptions C30_gcp2_zero .
+
+(** Non-vacuity: concrete instances meeting the hypotheses (SecInt(8): p = 1099511627563, L = 8). *)
+Example C30_nonvacuous_add_bits :
+  let x := [1;0;1;1;0;1;1] in let y := [1;1;0;0;1;1;0] in
+  length y = length x /\ allbitsb x = true /\ allbitsb y = true /\ add_bits x y = [0;0;0;0;0;1;0].
+Proof. vm_compute. auto. Qed.
+
+Example C30_nonvacuous_to_bits :
+  let p := 1099511627563 in let rb := [1;0;1;1;0;0;1;0] in
+  (8 <= 8)%nat /\ length rb = 8%nat /\ allbitsb rb = true /\
+  (0 <=? -3 + (2 ^ 8 + 12345 * 2 ^ 8 - value rb)) = true /\ (-3 + (2 ^ 8 + 12345 * 2 ^ 8 - value rb) <? p) = true /\
+  to_bits_num p 8 0 false (-3) 8 rb 12345 = [1;0;1;1;1;1;1;1].
+Proof. vm_compute. repeat split; auto. Qed.
+
+Example C30_nonvacuous_to_bits_integral_fxp :   (* SecFxp(8,4), a = 3.0: A = 48, integral *)
+  rshift_f 4 true = true /\ 48 mod 2 ^ 4 = 0 /\
+  to_bits_num 17592186044423 8 4 true 48 8 [1;0;0;1] 77 = [0;0;0;0;1;1;0;0].
+Proof. vm_compute. auto. Qed.
+
+Example C30_nonvacuous_trailing_zeros :
+  let p := 1099511627563 in let rb := [1;0;1;1;0;0;1;0] in
+  12 mod 2 ^ 2 = 0 /\ nth 2 (trailing_zeros p 8 12 8 rb 5) 0 = 1 /\
+  firstn 3 (trailing_zeros p 8 12 8 rb 5) = [0;0;1].
+Proof. vm_compute. auto. Qed.
+
+Example C30_nonvacuous_unit_vector :
+  unit_vector 3 5 = [0;0;0;1;0] /\ unit_vector 5 5 = [1;0;0;0;0] /\ unit_vector 6 7 = [0;0;0;0;0;0;1].
+Proof. vm_compute. auto. Qed.
+
+Example C30_nonvacuous_find :
+  find_wf [1;1;0;1;0] (ASec 0) true /\
+  find [1;1;0;1;0] (ASec 0) true (EStr 0) (Some (fun i => [i; i * i])) None = Some (None, [2; 4]) /\
+  find [1;1;1] (AInt 0) true (EVal (-1)) None (Some (fun b i => [i + b])) = Some (None, [-1]) /\
+  find [1;1;1] (AInt 0) true ERaw None None = Some (Some 1, [3]).
+Proof.
+  split; [|vm_compute; auto].
+  split; [intros _; split; [apply allbitsb_correct; reflexivity | left; reflexivity]|].
+  intros (_ & _ & H). discriminate.
+Qed.
+
+Example C30_nonvacuous_gcp2 :
+  let p := 1099511627563 in
+  12 mod 2 ^ 2 = 0 /\ 40 mod 2 ^ 2 = 0 /\ (12 / 2 ^ 2) mod 2 = 1 /\
+  gcp2 p 8 12 40 8 [1;0;1;1;0;0;1;0] 12345 [1;1;1;1;0;0;1;0] 999 = Some 4.
+Proof. vm_compute. auto. Qed.
